@@ -322,13 +322,15 @@ func parseStream(rep *Report, d *Driver, proto string, data []byte, segs []int, 
 		if i := strings.Index(got, " alloc="); i >= 0 {
 			got = got[:i]
 		}
-		if got != impl {
-			rep.Divergences = append(rep.Divergences, &Divergence{Scenario: what, Step: i, What: "decoded request", Impl: impl, Model: got, Script: []string{fmt.Sprintf("parse %s %s", proto, canonN(2000, data[off:]))}})
-			return
-		}
+		// the property itself first: what was decoded is what was sent (a concrete failing input)…
 		if i < len(intents) && (class != "ok" || c != intents[i]) {
 			rep.Violations = append(rep.Violations, Violation{What: fmt.Sprintf("%s: request %d decoded as [%s %s], sent %s", what, i, class, c, intents[i]), Signature: "decode-mismatch:" + proto,
 				Replay: map[string]interface{}{"proto": proto, "stream": canonN(4000, data), "segments": segs, "request": i}})
+			return
+		}
+		// …then the correspondence with the model
+		if got != impl {
+			rep.Divergences = append(rep.Divergences, &Divergence{Scenario: what, Step: i, What: "decoded request", Impl: impl, Model: got, Script: []string{fmt.Sprintf("parse %s %s", proto, canonN(2000, data[off:]))}})
 			return
 		}
 		if class == "fatal" {
